@@ -1096,7 +1096,7 @@ func init() {
 }
 
 func init() {
-	register(&Rule{ID: "HIST.cover", Min: 4, Text: "identity reconciliation covers every stacked operation that carries an array identity: for every operation type of package operations that offers SetCreatedAt or SetPrevCreatedAt (the setters exist for exactly this purpose), History.ReconcileCreatedAt calls that setter on that type — an operation type left out keeps pointing at the identity an undo has just replaced; on the replica that performs the undo the old tombstone is still next to the new element, on a peer that already collected it the change cannot be applied",
+	register(&Rule{ID: "HIST.cover", Min: 4, Text: "identity reconciliation covers every stacked operation that carries an array identity: for every operation type of package operations that offers SetCreatedAt or SetPrevCreatedAt (the setters exist for exactly this purpose), History.ReconcileCreatedAt calls that setter on that type, and it also looks at the parent identity (ParentCreatedAt) of the stacked operations, through which edits made inside a re-ticketed container name it — an operation type left out keeps pointing at the identity an undo has just replaced; on the replica that performs the undo the old tombstone is still next to the new element, on a peer that already collected it the change cannot be applied",
 		Run: func(x *Ctx) {
 			fn := x.fn(docPkg + ".(*History).ReconcileCreatedAt")
 			opI := x.P.Named(opsPkg + ".Operation")
@@ -1129,6 +1129,18 @@ func init() {
 					x.check(called[k], "op="+t.Obj().Name()+" setter="+setter+" reconciled", x.fpos(fn), "ReconcileCreatedAt re-points this identity", "ReconcileCreatedAt never calls "+k+": a stacked "+t.Obj().Name()+" keeps the identity an undo/redo has replaced and anchors on a tombstone that peers may already have collected")
 				}
 			}
+			// the identity a stacked operation names as its *parent*: when the re-ticketed element is a
+			// container (a counter, an object, a text in an array), the operations stacked for edits made
+			// inside it name it through ParentCreatedAt
+			readsParent := false
+			for k := range called {
+				if strings.HasSuffix(k, ".ParentCreatedAt") {
+					readsParent = true
+				}
+			}
+			n++
+			x.check(readsParent, "parent-identity-of-stacked-operations reconciled", x.fpos(fn), "ReconcileCreatedAt also looks at the parent identity of the stacked operations",
+				"ReconcileCreatedAt never looks at ParentCreatedAt: when undo re-inserts a removed array element that is a container under a fresh identity, the operations stacked for edits made inside it (an Increase on the counter, a Set in the object) still name the old identity and run on the tombstone — [counter 0]: increase 5, delete, undo, undo leaves [5], not [0]")
 			if n < 4 {
 				x.C.Vacuous(x.id()+" identity setters", n, 4)
 			}
